@@ -14,8 +14,8 @@ package main
 // `_args` the real resolver delivered to every stage job and the recorded
 // top-level outs of the same Tier-A run.
 //
-// The refinement theorems with node-wise store (`resolver_refines_den_mapstatic_checked` for map calls
-// of stages, `resolver_refines_den_mappedpipes_checked` for mapped pipelines / nesting; both cover
+// The refinement theorems with node-wise store (`resolver_refines_den_mapstatic_checked_partial` for map calls
+// of stages, `resolver_refines_den_mappedpipes_checked_partial` for mapped pipelines / nesting; both cover
 // plain programs) are replayed on every program
 // whose decidable hypotheses hold (`frag=1`): twoPhase must equal den.
 
@@ -338,7 +338,7 @@ func c01StaticCheck(c *Ctx, cases []c01StaticCase, stream string, reported map[s
 		if rep.frag {
 			r.hist("static:" + stream + ":inside-proved-fragment")
 			if strings.Contains(rep.kinds, "R") {
-				r.hist("static:" + stream + ":inside-proved-fragment with map calls of run-time size (given the recorded index sets)")
+				r.hist("static:" + stream + ":inside-proved-fragment with map calls of run-time size (given the recorded index sets) or in typed-map mode")
 			}
 			if strings.Contains(rep.kinds, "E") {
 				r.hist("static:" + stream + ":inside-proved-fragment with run-time disabled controls (modulo dnull->null)")
@@ -395,7 +395,7 @@ func c01StaticCheck(c *Ctx, cases []c01StaticCase, stream string, reported map[s
 				r.violate(Violation{Kind: "correspondence", Key: "C01:two-phase-vs-den",
 					What:   "twoPhase differs from den on a program that passes wellTypedB/acyclicB (the driver's encoding or the theorem's replay is broken)",
 					Input:  map[string]interface{}{"program": cs.src, "name": cs.name},
-					Broken: "resolver_refines_den_mapstatic_checked / resolver_refines_den_mappedpipes_checked / resolver_refines_den_disabled_checked / resolver_refines_den_runtime_checked"})
+					Broken: "resolver_refines_den_mapstatic_checked_partial / resolver_refines_den_mappedpipes_checked_partial / resolver_refines_den_disabled_checked_partial / resolver_refines_den_runtime_checked_partial"})
 			}
 		}
 		if rep.den == "eq" {
@@ -433,6 +433,34 @@ func init() {
 		if prog != "" && c.Drv != nil {
 			rep := c.Drv.Ask("C01.static", prog, "-")
 			fmt.Fprintln(os.Stderr, "model:   ", strings.ReplaceAll(rep, " (node ", "\n  (node "))
+		}
+	})
+}
+
+// C01WHY: debugging entry: generate plain programs, print those that are outside the proved
+// fragments together with the reason the driver gives (env C01_WHY_N, default 40).
+func init() {
+	register("C01WHY", func(c *Ctx) {
+		n := 40
+		if v := os.Getenv("C01_WHY_N"); v != "" {
+			fmt.Sscan(v, &n)
+		}
+		shown := 0
+		for i := 0; i < n; i++ {
+			src, _ := GenProgram(c.Rng, GenOpts{NoMap: true, NoDisable: true, MaxDepth: 1 + i%3, MaxCalls: 2 + i%4})
+			prog, _, err := c01CompileStatic(src)
+			if err != nil {
+				continue
+			}
+			rep := c01ParseStatic(c.Drv.Ask("C01.static", prog, "-"))
+			if rep.skip || rep.bad != "" || rep.frag {
+				continue
+			}
+			shown++
+			fmt.Fprintf(os.Stderr, "=== %d why=%s\n%s\n", i, rep.why, src)
+			if shown >= 3 {
+				break
+			}
 		}
 	})
 }
